@@ -135,14 +135,34 @@ class _RestCall:
 
 
 class FakeSession:
+    """Stands for a caller-supplied ``aiohttp.ClientSession``: usable as an async context manager, and unusable once
+    closed (which is the caller's business, never the library's)."""
+
     def __init__(self, peer: "Peer"):
         self.peer = peer
+        self.closed = False
+
+    async def __aenter__(self):
+        return self
+
+    async def __aexit__(self, *a):
+        await self.close()
+        return False
+
+    async def close(self):
+        if not self.closed:
+            self.closed = True
+            self.peer.session_closed_at = self.peer.now()
 
     def ws_connect(self, url, heartbeat=None, **kw):
+        if self.closed:
+            raise RuntimeError("Session is closed")
         return _WSContext(self.peer)
 
     def _verb(method):  # noqa
         def f(self, url, headers=None, params=None, data=None, timeout=None, **kw):
+            if self.closed:
+                raise RuntimeError("Session is closed")
             fields = {}
             if data is not None:
                 if isinstance(data, dict):
@@ -167,6 +187,7 @@ class Peer:
         self.t0 = t0
         self.conns: List[FakeWS] = []
         self.connect_attempts: List[float] = []
+        self.attempt_conn: List[Optional[int]] = []   # per attempt: the connection it produced, None if it failed
         self.rest_log: List[tuple] = []            # (t, method, path, fields, outcome)
         self.listen_keys: List[Dict[str, Any]] = []  # {key, created_at, path, symbol}
         self.keep_alives: List[tuple] = []         # (t, key, ok)
@@ -178,20 +199,31 @@ class Peer:
         self.next_reply_delay = 0.0
         self.next_sub_error = False
         self.on_frame = None      # callback(ws, msg) installed by the client adapter
+        self.session_closed_at: Optional[float] = None
+        self.at_handshake: List[str] = []     # frames the next accepted connection finds waiting for it
 
     def now(self) -> float:
         return round(self.loop.time() - self.t0, 6)
 
     async def accept(self) -> FakeWS:
         self.connect_attempts.append(self.now())
+        self.attempt_conn.append(None)
         if self.fail_connect > 0:
             self.fail_connect -= 1
             raise aiohttp.ClientConnectionError("connection refused")
         ws = FakeWS(self, len(self.conns))
+        self.attempt_conn[-1] = ws.cid
         ws.reply_delay = self.next_reply_delay
         ws.sub_error = self.next_sub_error
         self.next_sub_error = False
         self.conns.append(ws)
+        if self.at_handshake:
+            what = self.at_handshake.pop(0)
+            if what == "close":
+                ws.server_close()
+            else:
+                ws.close_cause = "server_reconnect_request"
+                ws.push_json({"event": "bts:request_reconnect", "channel": "", "data": ""})
         return ws
 
     def on_client_frame(self, ws: FakeWS, msg: dict):
